@@ -140,7 +140,32 @@ def check(ctx):
     allof_composition_rule(ctx, "C07.R4")
 
 
+    # ---------------- R5: dependentRequired of the serialization schema
+    ctx.rule("C07.R5", "the serialization schema only states `dependentRequired` towards properties that are always emitted: a property the serializer may omit (Undefined, None with exclude_none, defaults with exclude_defaults) is not promised to accompany another one", floor=3)
+    so = model.func("apischema.json_schema.schema.SchemaBuilder.object")
+    ser_b = model.cls("apischema.json_schema.schema.SerializationSchemaBuilder")
+    hook_calls = [c for c in walk_no_nested(so.node) if isinstance(c, ast.Call) and isinstance(c.func, ast.Attribute) and isinstance(c.func.value, ast.Name) and c.func.value.id == "self"
+                  and c.args and norm(c.args[0]) == "properties" and model.find_method(ser_b.qualname, c.func.attr) is not None and model.find_method(ser_b.qualname, c.func.attr).cls is ser_b]
+    ok = len(hook_calls) == 1
+    ctx.check(ok, "C07.R5", f"{so.qualname}:omittable-hook", None,
+              "the object schema no longer asks the serialization builder which properties can be omitted: `dependentRequired: {a: [b]}` is emitted although serialize() drops b (None with exclude_none, Undefined) while a is there - the serialized data does not validate",
+              so, so.node, detail="self._omittable(properties) overridden by SerializationSchemaBuilder")
+    if ok:
+        hook = model.find_method(ser_b.qualname, hook_calls[0].func.attr)
+        rets = [r for r in walk_no_nested(hook.node) if isinstance(r, ast.Return) and r.value is not None]
+        good = len(rets) == 1 and isinstance(rets[0].value, (ast.SetComp, ast.ListComp)) and norm(rets[0].value.elt).endswith(".name") and any(norm(i_) in ("not p.required", "not prop.required", "not property.required") for i_ in rets[0].value.generators[0].ifs)
+        ctx.check(good, "C07.R5", f"{hook.qualname}:not-required", None, "the omittable properties are no longer those that are not `required` in the serialization schema", hook, hook.node, detail="{p.name for p in properties if not p.required}")
+        par7 = {c_: p_ for p_ in ast.walk(so.node) for c_ in ast.iter_child_nodes(p_)}
+        bound = par7.get(hook_calls[0])
+        var = norm(bound.targets[0]) if isinstance(bound, ast.Assign) else None
+        dr = [a for a in walk_no_nested(so.node) if isinstance(a, ast.Assign) and norm(a.targets[0]) == "dependent_required" and isinstance(a.value, ast.DictComp)]
+        used = bool(var) and len(dr) == 1 and isinstance(dr[0].value.value, (ast.ListComp, ast.GeneratorExp)) and any(f"not in {var}" in norm(i_) for i_ in dr[0].value.value.generators[0].ifs) \
+            and any(f"not in {var}" in norm(i_) for i_ in dr[0].value.generators[0].ifs)
+        ctx.check(used, "C07.R5", f"{so.qualname}:filtered", None, f"`dependent_required` does not drop the omittable properties from the required lists (and the entries left empty)", so, dr[0] if dr else so.node, detail=f"req not in {var} in both filters")
+
 def mutants(mb):
+    mb.add_text("ser-schema-promises-omittable", "apischema/json_schema/schema.py", "        return {p.name for p in properties if not p.required}\n", "        return set()\n", "C07.R5", "not-required")
+    mb.add_text("ser-schema-omittable-unused", "apischema/json_schema/schema.py", "            f: [req for req in reqs if req in aliases and req not in omittable]\n", "            f: [req for req in reqs if req in aliases]\n", "C07.R5", "filtered")
     mb.add_text("typed-dict-required-ignores-omission", "apischema/json_schema/schema.py", "                (field.required or not is_typed_dict(get_origin_or_type(tp)))\n                and not field.skippable(\n                    settings.serialization.exclude_defaults,\n                    settings.serialization.exclude_none,\n                )\n", "                field.required\n                if is_typed_dict(get_origin_or_type(tp))\n                else not field.skippable(\n                    settings.serialization.exclude_defaults,\n                    settings.serialization.exclude_none,\n                )\n", "C07.R2", "field-required")
     mb.add_text("neg-settings-hoisted", "apischema/json_schema/schema.py", "                not is_union_of(types[\"return\"], UndefinedType)\n                and not (\n                    settings.serialization.exclude_none\n                    and is_union_of(types[\"return\"], NoneType)\n                ),", "                not is_union_of(types[\"return\"], UndefinedType)\n                and not (\n                    settings.serialization.exclude_none and is_union_of(types[\"return\"], NoneType)\n                ),", negative=True)
     mb.add_text("serialized-required-wrong-setting", "apischema/json_schema/schema.py", "                    settings.serialization.exclude_none\n                    and is_union_of(types[\"return\"], NoneType)", "                    settings.serialization.exclude_defaults\n                    and is_union_of(types[\"return\"], NoneType)", "C07.R2", "serialized-required")
